@@ -208,6 +208,48 @@ def table_cases(t, ts, desc):
         out.append(("tree.as_newick(precision=%r)" % pr, lambda pr=pr: [tr.as_newick(root=r, precision=pr) for tr in ts.trees() for r in tr.roots]))
     for nn, rk in ((3, (0, 5)), (3, (9, 0)), (0, (0, 0)), (-1, (0, 0)), (3, (-1, 0)), (3, (2**64, 0)), (40, (10**30, 0))):
         out.append(("Tree.unrank(%r, %r)" % (nn, rk), lambda nn=nn, rk=rk: tskit.Tree.unrank(nn, rk)))
+    # further statistics / comparison / export entry points
+    S = list(ts.samples())
+    ns = len(S)
+    for ids in ([n], [-1], [2**31 - 1], [0, 0], [], [2**32]):
+        out.append(("ts.mean_descendants([%r])" % ids, lambda ids=ids: ts.mean_descendants([ids])))
+        out.append(("ts.genealogical_nearest_neighbours(focal=%r)" % ids, lambda ids=ids: ts.genealogical_nearest_neighbours(ids, [S])))
+        out.append(("ts.genealogical_nearest_neighbours(sample_sets=[%r])" % ids, lambda ids=ids: ts.genealogical_nearest_neighbours(S[:1], [ids])))
+        out.append(("ts.alignments(samples=%r)" % ids, lambda ids=ids: consume(ts.alignments(samples=ids, reference_sequence="A" * int(ts.sequence_length)))))
+        out.append(("ts.ld_matrix(sites=[%r, [0]])" % ids, lambda ids=ids: ts.ld_matrix(sites=[ids, [0]])))
+        out.append(("ts.ld_matrix(sample_sets=[%r])" % ids, lambda ids=ids: ts.ld_matrix(sample_sets=[ids])))
+        out.append(("ts.union(ts, mapping=%r)" % ids, lambda ids=ids: ts.union(ts, (ids * n)[:n] if ids else [], check_shared_equality=False)))
+        out.append(("ts.trees(tracked_samples=%r, sample_lists)" % ids, lambda ids=ids: [tr.num_tracked_samples() for tr in ts.trees(tracked_samples=ids, sample_lists=True)]))
+        out.append(("ts.pair_coalescence_counts(sample_sets=[%r])" % ids, lambda ids=ids: ts.pair_coalescence_counts(sample_sets=[ids, S])))
+        out.append(("ts.pair_coalescence_rates(sample_sets=[%r])" % ids, lambda ids=ids: ts.pair_coalescence_rates(np.array([0, 1, np.inf]), sample_sets=[ids, S])))
+    for shape in ((0, 1), (ns, 0), (ns + 1, 1), (max(ns - 1, 0), 1), (ns, 1), (1,)):
+        W = np.ones(shape)
+        for meth in ("trait_covariance", "trait_correlation", "general_stat"):
+            for mode in ("site", "branch", "node"):
+                def f(W=W, meth=meth, mode=mode):
+                    if meth == "general_stat":
+                        return ts.general_stat(W, lambda x: x, W.shape[1] if W.ndim == 2 else 1, mode=mode)
+                    return getattr(ts, meth)(W, mode=mode)
+                out.append(("ts.%s(W of shape %r, mode=%s)" % (meth, shape, mode), f))
+        out.append(("ts.trait_linear_model(W of shape %r)" % (shape,), lambda W=W: ts.trait_linear_model(W, np.ones((ns, 1)))))
+        out.append(("ts.trait_linear_model(Z of shape %r)" % (shape,), lambda W=W: ts.trait_linear_model(np.ones((ns, 1)), W)))
+        out.append(("ts.genetic_relatedness_vector(W of shape %r)" % (shape,), lambda W=W: ts.genetic_relatedness_vector(W, mode="branch")))
+        out.append(("ts.genetic_relatedness_weighted(W of shape %r)" % (shape,), lambda W=W: ts.genetic_relatedness_weighted(W, indexes=[(0, 0)])))
+    for a, b in ((-1, 0), (0, -1), (0, ts.num_sites), (ts.num_sites, 0), (2**31, 0), (2**32, 0)):
+        out.append(("LdCalculator.r2(%r, %r)" % (a, b), lambda a=a, b=b: tskit.LdCalculator(ts).r2(a, b)))
+        out.append(("LdCalculator.r2_array(%r)" % a, lambda a=a: tskit.LdCalculator(ts).r2_array(a, max_mutations=3)))
+    for nn in (-1, 0, 1, 2):       # (a request for 2^31 leaves is legitimate and simply takes that long: not a case)
+        for gen in ("generate_star", "generate_comb", "generate_balanced", "generate_random_binary"):
+            out.append(("Tree.%s(%r)" % (gen, nn), lambda nn=nn, gen=gen: getattr(tskit.Tree, gen)(nn)))
+        out.append(("Tree.generate_balanced(5, arity=%r)" % nn, lambda nn=nn: tskit.Tree.generate_balanced(5, arity=nn)))
+    for eps in (NAN, INF, -1.0, 0.0, 1e300):
+        out.append(("tree.split_polytomies(epsilon=%r)" % eps, lambda eps=eps: ts.first().split_polytomies(epsilon=eps, random_seed=1)))
+        out.append(("ts.haplotypes(left=%r)" % eps, lambda eps=eps: consume(ts.haplotypes(left=eps))))
+        out.append(("ts.variants(left=%r)" % eps, lambda eps=eps: consume(ts.variants(left=eps))))
+        out.append(("ts.kc_distance(ts, %r)" % eps, lambda eps=eps: ts.kc_distance(ts, lambda_=eps)))
+    out.append(("kc / rf distance to a tree with other samples", lambda: (ts.first().kc_distance(tskit.Tree.generate_star(7)), ts.first().rf_distance(tskit.Tree.generate_star(7)))))
+    out.append(("ts.concatenate / impute / as_fasta / as_nexus / to_macs", lambda: (ts.concatenate(ts), ts.impute_unknown_mutations_time(), ts.as_fasta(reference_sequence="A" * int(ts.sequence_length)), ts.as_nexus(include_alignments=False), ts.to_macs())))
+    out.append(("edge_diffs / coiterate / mutations_edge", lambda: (consume(ts.edge_diffs()), consume(ts.coiterate(ts)), ts.mutations_edge, ts.individuals_nodes, ts.nodes_time)))
     for blob in (b"", b"garbage", b"\x89KAS\r\n\x1a\n" + b"\0" * 56, b"\x89KAS\r\n\x1a\n" + b"\xff" * 56):
         out.append(("tskit.load(%r...)" % blob[:12], lambda blob=blob: tskit.load(io.BytesIO(blob))))
     return [(desc + ": " + nm, f) for nm, f in out]
